@@ -57,6 +57,7 @@ type chainPlan struct {
 	late       bool // attestations are often held back, split into overlapping aggregates, and vote for odd heads/targets
 	policy     string // a named policy of the chain library ("late", "full", "edge", "showcase", …); "": the default policy
 	limits     bool // blocks that carry exactly MAX_x operations of one kind in turn, and attestation backlogs (very late inclusion)
+	straddle   bool // attestation backlog across EVERY fork boundary: nothing included in the epoch before a fork and in the first half of the fork epoch
 }
 
 // apart returns cfg with every per-fork constant family taking pairwise different values across the forks and every
@@ -113,6 +114,27 @@ func limitsOpts(spec *common.Spec, slot uint64, i int) *chain.SlotOpts {
 }
 
 // sweep returns cfg with another MAX_VALIDATORS_PER_WITHDRAWALS_SWEEP.
+// straddleOpts: no attestations in the epoch before a fork epoch and in the first half of a fork epoch; the second half
+// of the fork epoch then includes the backlog: attestations whose target epoch precedes the fork, included by the new
+// fork's rules (deneb: also those of the early slots of the last capella epoch, more than one epoch late).
+func straddleOpts(spec *common.Spec, slot uint64) *chain.SlotOpts {
+	spe := uint64(spec.SLOTS_PER_EPOCH)
+	e, pos := slot/spe, slot%spe
+	isFork := func(x uint64) bool {
+		for _, f := range []common.Epoch{spec.ALTAIR_FORK_EPOCH, spec.BELLATRIX_FORK_EPOCH, spec.CAPELLA_FORK_EPOCH, spec.DENEB_FORK_EPOCH} {
+			if uint64(f) == x && x > 0 {
+				return true
+			}
+		}
+		return false
+	}
+	m := &chain.OpMix{SyncParticipation: 0.9, Transactions: 1, Blobs: 1}
+	if isFork(e+1) || (isFork(e) && pos <= spe/2) {
+		m.NoAttestations = true
+	}
+	return &chain.SlotOpts{Mix: m, Propose: true}
+}
+
 func sweep(cfg *chain.Config, n uint64) *chain.Config {
 	cfg.Spec.MAX_VALIDATORS_PER_WITHDRAWALS_SWEEP = view.Uint64View(n)
 	cfg.ID += fmt.Sprintf("+sweep%d", n)
@@ -154,6 +176,11 @@ func plans(o hreg.Opts) []chainPlan {
 			add(apart(cfg), 64, "mixed", 18)
 			p[len(p)-1].limits = true
 		}
+		// attestation backlogs across every fork boundary (c01: slots x 3 reaches the last fork; c03: a short prefix)
+		add(chain.Fast(1, 2, 3, 4), 64, "mixed", 16)
+		p[len(p)-1].straddle = true
+		add(chain.Fast(2, 4, 6, 8), 64, "mixed", 24)
+		p[len(p)-1].straddle = true
 		// the chain library's own "apart" configurations (also: non-power-of-two vectors, other sweeps, all five forks
 		// within 7 epochs) under its planned-delay, at-the-limit and payload-edge policies
 		for _, pol := range []string{"late", "full", "edge"} {
@@ -190,6 +217,10 @@ func plans(o hreg.Opts) []chainPlan {
 		p[len(p)-1].policy = pol
 		add(chain.RandomConfig2(rng.Int63n(1<<30)), 64, "mixed", 48)
 		p[len(p)-1].policy = pol
+	}
+	for _, cfg := range []*chain.Config{chain.Fast(1, 2, 3, 4), chain.Fast(2, 4, 6, 8), chain.Fast(1, 3, 4, 6), chain.MinimalAt(1, 2, 3, 4)} {
+		add(cfg, 64, "mixed", 32)
+		p[len(p)-1].straddle = true
 	}
 	add(chain.MainnetConst(0, N, N, N), 64, "mixed", 24)
 	add(chain.MainnetConst(0, 0, 1, 2), 64, "mixed", 32)
@@ -342,8 +373,12 @@ func genChain(o hreg.Opts, p chainPlan, mutants bool) (out seqOut) {
 	if !mutants {
 		slots *= 3 // valid blocks are cheap (no mutant volume): longer chains for c01
 	}
+	if mutants && p.straddle && slots > 12 {
+		slots = 12
+	}
 	oddKey := 2000
 	dhSeen := map[string]int{}
+	xfSeen := map[string]int{}
 	for i := 0; i < slots; i++ {
 		if rng.Intn(8) == 0 {
 			oddKey += 2
@@ -352,6 +387,9 @@ func genChain(o hreg.Opts, p chainPlan, mutants bool) (out seqOut) {
 		var opts *chain.SlotOpts
 		if p.limits {
 			opts = limitsOpts(spec, uint64(c.Slot())+1, i)
+		}
+		if p.straddle {
+			opts = straddleOpts(spec, uint64(c.Slot())+1)
 		}
 		step, err := c.NextSlot(opts)
 		if err != nil {
@@ -476,6 +514,12 @@ func genChain(o hreg.Opts, p chainPlan, mutants bool) (out seqOut) {
 					if d := uint64(step.Slot) - uint64(a.Data.Slot); d > uint64(spec.SLOTS_PER_EPOCH) {
 						stat("attestations_included_later_than_one_epoch", fork)
 					}
+					if uint64(a.Data.Target.Epoch) < fs.ForkEpoch {
+						stat("attestations_with_target_epoch_before_the_state_fork", fork)
+						if d := uint64(step.Slot) - uint64(a.Data.Slot); d > uint64(spec.SLOTS_PER_EPOCH) {
+							stat("attestations_with_target_epoch_before_the_state_fork", fork+":later-than-one-epoch")
+						}
+					}
 				}
 			}
 			// the same block through the whole state_transition, from the state before slot processing
@@ -557,6 +601,28 @@ func genChain(o hreg.Opts, p chainPlan, mutants bool) (out seqOut) {
 						bvs = append(bvs, v)
 					}
 				}
+			}
+			// hand-made operations signed across the state's fork boundary: first two blocks of every fork, then every 4th slot
+			var xfMuts []chain.Mutant
+			if xfSeen[fork] < 2 || uint64(step.Slot)%4 == 2 {
+				xv, xm := crossForkOps(c, step, fs, rng)
+				if len(xv) > 0 {
+					xfSeen[fork]++
+				}
+				bvs = append(bvs, xv...)
+				xfMuts = xm
+			}
+			if mutants {
+				for k := range xfMuts {
+					mu := &xfMuts[k]
+					out.lines = append(out.lines, "pre "+cfgToks+" "+fs.String())
+					emitOn(spec, fs, step.PreBlock, mu.Label, mu.Block, "valid", nil, true)
+					out.lines = append(out.lines, "reset")
+					stat("mutant_rule_intended", fork+":"+mu.Rule)
+					stat("mutant_area", "cross-fork-signature")
+					stat("mutants", "expected-invalid")
+				}
+				bvs = append(bvs, blsPrefixVariants(step, fs)...)
 			}
 			if mutants {
 				bvs = append(bvs, exitAgeVariants(c, spec, step, fs)...)
